@@ -1525,6 +1525,14 @@ func (e *Engine) opForward() {
 	if e.locked || e.klocked {
 		req = append([]byte{200}, gen.Bytes(e.R, 16)...)
 	}
+	if e.locked && e.klocked && e.R.Intn(3) == 0 {
+		// a raw unlock (or lock) request with a passphrase that is not the one the agent was locked with, relayed as it
+		// is: the underlying agent refuses it, and the shim is exactly as locked as before (the operations that follow
+		// in this history are judged against that)
+		wrong := append(append([]byte(nil), e.kpass...), 'x')
+		req = append([]byte{byte(23 - e.R.Intn(4)/3)}, ssh.Marshal(struct{ P []byte }{wrong})...)
+		e.St.Ops["raw unlock/lock requests with a wrong passphrase relayed while locked"]++
+	}
 	nreq := e.Ag.NumRequests()
 	resp, err := e.Shim.Forward(req)
 	e.log("forward", fmt.Sprintf("code %d, %d bytes", req[0], len(req)), errStr(err))
